@@ -532,11 +532,33 @@ func nearestInterior(g orb.Geometry, q orb.Point) bool {
 
 // ---------------------------------------------------------------- properties
 
+// genK: half of the cases stay at the generated scale, the rest are multiplied by 2^k, k in -60..60.
+func genK(t *rapid.T) int {
+	k := 0
+	if rapid.Bool().Draw(t, "rescale") {
+		k = rapid.IntRange(-60, 60).Draw(t, "k")
+	}
+	switch {
+	case k == 0:
+		stats.Class("rescale:none")
+	case k <= -30:
+		stats.Class("rescale:2^k, k <= -30")
+	case k < 0:
+		stats.Class("rescale:2^k, -30 < k < 0")
+	case k < 30:
+		stats.Class("rescale:2^k, 0 < k < 30")
+	default:
+		stats.Class("rescale:2^k, k >= 30")
+	}
+	return k
+}
+
 var measureKinds = []string{"ring", "ring", "ring", "ring", "ring", "polygon", "polygon", "polygon", "multipolygon", "multipolygon", "collection", "collection", "bound", "line", "mls", "multipoint", "point"}
 
 func TestPropMeasure(t *testing.T) {
 	stats.Assume("every coordinate is an integer multiple of 2^-40 with |v| <= 2^21: integer lattices and general-position floats k*2^-40 (no subnormal-range magnitudes, whose squares underflow)")
-	stats.Assume("lattice inputs are integers with |v| <= 2^20 before and after the integer translation; the centroid is held to 1e-9*(1+scale) without a conditioning term only for integers |v| <= 2^12 (exact numerators)")
+	stats.Assume("lattice inputs are integers with |v| <= 2^20 before and after the integer translation; the centroid is held to 1e-9*scale without a conditioning term only for integers |v| <= 2^12 in a power-of-two unit (exact numerators)")
+	stats.Assume("half of the cases are multiplied as a whole (geometry, queries, translation) by 2^k, k in -60..60; all tolerances are relative to the case's own coordinate scale, none is absolute")
 	stats.Assume("polygon holes lie in distinct quadrants of a rectangle contained in the outer ring (nested, interior-disjoint)")
 	stats.Assume("centroid not asserted where the statement does not define it: zero total area / length / count, collections whose top dimension is below 2 or that contain a clockwise ring")
 	stats.Check(t, 48000, 1500000, func(rt *rapid.T) {
@@ -579,6 +601,7 @@ func TestPropMeasure(t *testing.T) {
 				stats.Sample("measure "+kind, c)
 			}
 		}
+		c.K = genK(rt)
 		if !inDomain(c) {
 			rt.Fatalf("harness: generated a case outside the stated domain: %s", gen.JSON(c))
 		}
@@ -681,6 +704,7 @@ func TestPropDistance(t *testing.T) {
 				stats.Sample("distance "+kind, c)
 			}
 		}
+		c.K = genK(rt)
 		if !inDomain(c) {
 			rt.Fatalf("harness: generated a case outside the stated domain: %s", gen.JSON(c))
 		}
@@ -701,6 +725,7 @@ func TestPropPoints(t *testing.T) {
 		}
 		c := Case{Op: "points", Q: []gen.P{gen.FromPt(a), gen.FromPt(b)}}
 		stats.Class("points space:" + s.name)
+		c.K = genK(rt)
 		if !inDomain(c) {
 			rt.Fatalf("harness: generated a case outside the stated domain: %s", gen.JSON(c))
 		}
@@ -724,7 +749,7 @@ func TestEnumSegment(t *testing.T) {
 	for _, a := range pts {
 		for _, b := range pts {
 			idx++
-			size += int64(len(pts))
+			size += int64(3 * len(pts))
 			if !stats.Mine(idx) {
 				continue
 			}
@@ -732,19 +757,21 @@ func TestEnumSegment(t *testing.T) {
 			for i, p := range pts {
 				qs[i] = gen.FromPt(p)
 			}
-			c := Case{Op: "distance", G: gen.G{V: orb.LineString{a, b}}, Q: qs}
-			stats.Eval("TestEnumSegment", int64(len(pts)))
-			for _, p := range pts {
-				if nearestInterior(c.G.V, p) {
-					stats.NonTrivial(fmt.Sprint("seg", a, b, p))
+			for _, k := range []int{0, -50, 40} { // the grid as it is and rescaled by 2^-50 and 2^40
+				c := Case{Op: "distance", G: gen.G{V: orb.LineString{a, b}}, Q: qs, K: k}
+				stats.Eval("TestEnumSegment", int64(len(pts)))
+				for _, p := range pts {
+					if nearestInterior(c.G.V, p) {
+						stats.NonTrivial(fmt.Sprint("seg", a, b, p, k))
+					}
 				}
+				stats.TryT(t, "TestEnumSegment", c, func() error { return checkCase(c) })
+				c2 := Case{Op: "distance", G: gen.G{V: orb.Ring{a, b, {2, 2}, a}}, Q: qs, K: k}
+				stats.TryT(t, "TestEnumSegment", c2, func() error { return checkCase(c2) })
 			}
-			stats.TryT(t, "TestEnumSegment", c, func() error { return checkCase(c) })
-			c2 := Case{Op: "distance", G: gen.G{V: orb.Ring{a, b, {2, 2}, a}}, Q: qs}
-			stats.TryT(t, "TestEnumSegment", c2, func() error { return checkCase(c2) })
 		}
 	}
-	stats.Subspace("every segment [a,b] x every query point on the 5x5 integer grid (two-vertex line and closed triangle a,b,(2,2))", size, true)
+	stats.Subspace("every segment [a,b] x every query point on the 5x5 integer grid (two-vertex line and closed triangle a,b,(2,2)), at scale 1, 2^-50 and 2^40", size, true)
 }
 
 // int64 shoelace oracle for the small grid, written independently of ringMeasure
@@ -794,7 +821,7 @@ func TestEnumRings(t *testing.T) {
 				cs := Case{Op: "measure", G: gen.G{V: ring}}
 				stats.TryT(t, "TestEnumRings", cs, func() error {
 					// expectation from the int64 oracle alone
-					m := measure{dim: 2, area: rat(float64(twoA) / 2), scale: 3}
+					m := measure{dim: 2, area: rat(float64(twoA) / 2), scale: maxAbs(ring)}
 					m.tolA, m.errA, m.tolC = ringTol(ring, float64(twoA)/2, [2]float64{})
 					for i := 0; i+1 < len(ring); i++ {
 						dx, dy := ring[i+1][0]-ring[i][0], ring[i+1][1]-ring[i][1]
@@ -815,12 +842,27 @@ func TestEnumRings(t *testing.T) {
 							return fmt.Errorf("harness: the two oracles disagree on %v: %+v vs %+v", ring, mm, m)
 						}
 					}
-					return compareMeasure(ring, m, "as given")
+					if err := compareMeasure(ring, m, "as given"); err != nil {
+						return err
+					}
+					// the same ring rescaled by 2^-40 (every other ring: by 2^35): expectations scale exactly
+					k := -40
+					if idx%2 == 1 {
+						k = 35
+					}
+					sr := mapPoints(ring, func(p orb.Point) orb.Point { return orb.Point{math.Ldexp(p[0], k), math.Ldexp(p[1], k)} }).(orb.Ring)
+					ms := m
+					ms.area = rat(math.Ldexp(float64(twoA)/2, 2*k))
+					ms.c = [2]float64{math.Ldexp(m.c[0], k), math.Ldexp(m.c[1], k)}
+					ms.length = math.Ldexp(m.length, k)
+					ms.scale = math.Ldexp(m.scale, k)
+					ms.tolA, ms.errA, ms.tolC = ringTol(sr, f64(ms.area), ms.c)
+					return compareMeasure(sr, ms, fmt.Sprintf("rescaled by 2^%d", k))
 				})
 			}
 		}
 	}
-	stats.Subspace("every 3- and 4-vertex ring on the 4x4 integer grid, closed and unclosed spelling: area, centroid, length", size, true)
+	stats.Subspace("every 3- and 4-vertex ring on the 4x4 integer grid, closed and unclosed spelling, at scale 1 and rescaled by 2^-40 / 2^35: area, centroid, length", size, true)
 }
 
 // ---------------------------------------------------------------- known finding (fixed by 6e8fb96; kept as a regression witness)
@@ -834,8 +876,8 @@ func TestKnownMLSZeroLengthMember(t *testing.T) {
 		{{{100, 100}}, {{10, 0}, {20, 0}}},
 		{{{0, 0}, {4, 0}}, {{7, 7}, {7, 7}, {7, 7}}, {{0, 0}, {0, 4}}},
 	}
-	for _, w := range witnesses {
-		c := Case{Op: "measure", G: gen.G{V: w}}
+	for i, w := range witnesses {
+		c := Case{Op: "measure", G: gen.G{V: w}, K: []int{0, -50, 45}[i%3]}
 		stats.Eval("TestKnownMLSZeroLengthMember", 1)
 		err := stats.Guard(func() error { return checkCase(c) })
 		if err == nil {
